@@ -1,6 +1,7 @@
 import DmrVerif.Driver.Loop
 import DmrVerif.Driver.Codes
 
-/-! model driver for property C06 -/
+/-! model driver for property C06: the stateless block-code operations plus the object history
+(`h.*` operations thread a `Heap` through the lines of one run) -/
 
-def main : IO Unit := Dmr.Driver.runMain [Dmr.Driver.codesOp]
+def main : IO Unit := Dmr.Driver.runMainS Dmr.Driver.histStep Dmr.Heap.empty
